@@ -629,15 +629,14 @@ func c15GenValid(r *rand.Rand, count func(string)) *c15Case {
 		count("first-read>4096-sniffed")
 	}
 	c.prescan = func(content string) (encoding.Encoding, string) { return c15ExpectedPrescan(b, len(content)) }
-	if _, e := c15ExpectedBOM(b.body); e != nil {
-		c.cands = append(c.cands, e)
-	}
-	if !strings.HasPrefix(b.body, "\xef\xbb\xbf") && !strings.HasPrefix(b.body, "\xff\xfe") && !strings.HasPrefix(b.body, "\xfe\xff") {
-		for _, d := range b.decls {
-			if d.real {
-				c.cands = append(c.cands, c15Lookup(d.label))
-			}
+	// the only charset a sniff may legitimately apply: the one a scan of the WHOLE body selects (BOM first,
+	// else the first complete supported declaration) — split_only_affects_meta_detection
+	if bn, e := c15ExpectedBOM(b.body); bn != "" {
+		if e != nil {
+			c.cands = append(c.cands, e)
 		}
+	} else if e, _ := c15ExpectedPrescan(b, len(b.body)); e != nil {
+		c.cands = append(c.cands, e)
 	}
 	count("site:" + site)
 	count("kind:" + cs.kind)
